@@ -337,6 +337,11 @@ func (c *Ctx) ErrImpliesZero(ob *core.Obligation, rels map[string]bool) {
 				if i == ei {
 					continue
 				}
+				if c.sameTupleAsError(r, e, rels) {
+					// the result of the very call whose error is returned: that call is itself held
+					// to this rule, so the result is a zero value whenever the error is not nil
+					continue
+				}
 				if !isZeroValue(r) {
 					bad = fmt.Sprintf("a return with a possibly non-nil error also returns a non-zero result #%d (%s): partial results escape together with an error", i, core.ShortVal(r))
 					badPos = ret.Pos()
@@ -350,6 +355,22 @@ func (c *Ctx) ErrImpliesZero(ob *core.Obligation, rels map[string]bool) {
 			ob.Pass(key, c.P.Pos(fn.Pos()), fmt.Sprintf("%d return(s): an error is always accompanied by zero results", n))
 		}
 	}
+}
+
+// sameTupleAsError: r and the error e are components of the result of one call of a module
+// function that is itself in the scope of E2.
+func (c *Ctx) sameTupleAsError(r, e ssa.Value, rels map[string]bool) bool {
+	rx, ok1 := core.Strip(r).(*ssa.Extract)
+	ex, ok2 := core.Strip(e).(*ssa.Extract)
+	if !ok1 || !ok2 || rx.Tuple != ex.Tuple {
+		return false
+	}
+	call, ok := rx.Tuple.(*ssa.Call)
+	if !ok {
+		return false
+	}
+	sc := call.Call.StaticCallee()
+	return sc != nil && c.P.InModule(sc) && rels[relOfFn(sc)] && errIndex(sc.Signature) == ex.Index
 }
 
 func allFromOneCall(ret *ssa.Return) bool {
